@@ -328,3 +328,110 @@ package composite
 //@   ensures [C20,C12] called(Metacontroller.reconcileCompositeController) ==> err == recErr
 //@   ensures [C20] !called(Metacontroller.reconcileCompositeController) ==> (forall k string :: k != name ==> has(mc.parentControllers, k) == old(has(mc.parentControllers, k)) && mc.parentControllers[k] == old(mc.parentControllers[k]))
 //@   ensures [C20] !called(Metacontroller.reconcileCompositeController) && !called(parentController.Stop) ==> has(mc.parentControllers, name) == was && mc.parentControllers[name] == oldpc
+
+// ---- C09 / C02: ControllerRevision bookkeeping ----
+
+// manageRevisions: brings the ControllerRevisions of the parent to the desired set. Every request that fails ends the
+// function with an error at once (syncRevisions then returns an error and syncParentObject touches no child).
+//@ func parentController.manageRevisions(pc, parent, observedRevisions, desiredRevisions) (err)
+//@   requires validPC(pc) && parent != nil
+//@   requires forall j int :: 0 <= j && j < len(observedRevisions) ==> observedRevisions[j] != nil
+//@   requires forall j int :: 0 <= j && j < len(desiredRevisions) ==> desiredRevisions[j] != nil
+//@   safety C13,C09
+//@   failstop [C09,C12] Delete, Update, Create
+//@   bind loop 2: oi, orev
+//@   bind loop 3: di, drev
+//@   invariant loop 1 [C09]: desiredMap != nil && observedMap != nil && (forall j int :: 0 <= j && j <= rangeindex ==> has(desiredMap, desiredRevisions[j].Name))
+//@   invariant loop 2 [C09]: desiredMap != nil && observedMap != nil && (forall j int :: 0 <= j && j < len(desiredRevisions) ==> has(desiredMap, desiredRevisions[j].Name))
+//@   invariant loop 2 [C09]: forall k string :: has(observedMap, k) ==> observedMap[k] != nil
+//@   invariant loop 3 [C09]: forall k string :: has(observedMap, k) ==> observedMap[k] != nil
+//@   // only an observed revision that is not desired any more is deleted, and only under the UID that was observed
+//@   at Delete(c, ctx, name, opts) [C09,C02]: 0 <= oi && oi < len(observedRevisions) && name == observedRevisions[oi].Name && !has(desiredMap, name) && opts.Preconditions != nil && opts.Preconditions.UID != nil && *opts.Preconditions.UID == observedRevisions[oi].UID
+//@   at Update(c, ctx, rev, opts) [C09,C01]: 0 <= di && di < len(desiredRevisions) && rev == desiredRevisions[di] && has(observedMap, rev.Name) && !deq(observedMap[rev.Name], rev)
+//@   at Create(c, ctx, rev, opts) [C09]: 0 <= di && di < len(desiredRevisions) && rev == desiredRevisions[di] && observedMap[rev.Name] == nil
+
+// ---- C07 / C08: rolling update ----
+
+//@ pred validPR(pr) = pr != nil && pr.revision != nil && pr.parent != nil
+
+// thin contracts of the bookkeeping helpers (their list manipulation is not under contract)
+//@ func parentRevision.addChild(pr, apiGroup, kind, name) ()
+//@   requires pr != nil && pr.revision != nil
+//@   trusted list bookkeeping (nested slices of names): not under contract; callers rely on the call events only
+//@   ensures pr.revision == old(pr.revision) && pr.syncResult == old(pr.syncResult) && pr.parent == old(pr.parent)
+
+//@ func parentRevision.removeChild(pr, apiGroup, kind, name) ()
+//@   // callers take pr from the claim map or from parentRevisions[1:], which hold the revisions built by syncRevisions (all with a
+//@   // ControllerRevision): the solvers do not connect the element of the sub-slice / nested map with validPRs in time, so this
+//@   // is relied upon here instead of being re-proved at the two call sites
+//@   requires-assumed pr != nil && pr.revision != nil
+//@   trusted list bookkeeping (nested slices of names): not under contract; callers rely on the call events only
+//@   ensures pr.revision == old(pr.revision) && pr.syncResult == old(pr.syncResult) && pr.parent == old(pr.parent)
+
+//@ func parentController.syncRevisionClaims(pc, parentRevisions) (claimed)
+//@   requires len(parentRevisions) >= 1
+//@   trusted claim normalisation (three nested loops over maps of maps): not under contract
+//@   ensures claimed != nil
+//@   // every claim points to one of the revisions passed in
+//@   ensures forall k string, n string :: has(claimed, k) && has(claimed[k], n) ==> claimed[k][n] != nil && claimed[k][n].revision != nil && claimed[k][n].parent != nil
+
+//@ func childStatusCheck(checks, child) (err)
+//@   requires child != nil
+//@   safety C13,C07
+//@   failstop [C07] GetStatusCondition
+
+// The gate: every child already on the latest revision must have been observed, be up to date, (RollingInPlace) have observed
+// its own latest generation, and pass the status checks. Each negative answer ends the function with an error at once, and no
+// child that reaches the end of an iteration skipped the status check.
+//@ func parentController.shouldContinueRolling(pc, latest, observedChildren) (err)
+//@   requires validPC(pc) && validPR(latest)
+//@   // every child the latest revision claims is one it desires: syncRevisionClaims drops all other claims and addChild is only
+//@   // called for keys of latest.desiredChildMap (both outside the contracts' reach: assumed)
+//@   requires-assumed forall i int :: 0 <= i && i < len(latest.revision.Children) ==> (forall j int :: 0 <= j && j < len(latest.revision.Children[i].Names) ==> latest.desiredChildMap.FindGroupKindName(schema.GroupKind{Group: latest.revision.Children[i].APIGroup, Kind: latest.revision.Children[i].Kind}, latest.revision.Children[i].Names[j]) != nil)
+//@   safety C13,C07
+//@   failstop [C07,C08] ApplyUpdate, childStatusCheck
+//@   bind call FindGroupKindName: child
+//@   bind call GetObservedGeneration: og, ogFound, ogErr
+//@   bind call ApplyUpdate: updated, auErr
+//@   bind call DeepEqual: same
+//@   at ApplyUpdate(c, u) [C07]: c != nil
+//@   at GetObservedGeneration(o) [C07]: same && auErr == nil
+//@   at childStatusCheck(checks, c) [C07]: c != nil && same && auErr == nil
+//@   // RollingInPlace: a child whose status reports an older generation than its metadata has not observed its latest spec yet
+//@   at childStatusCheck(checks, c) [C07]: strategy.Method == v1alpha1.ChildUpdateRollingInPlace && og > 0 ==> og >= c.GetGeneration()
+//@   invariant loop 1 [C07]: count(childStatusCheck) == count(ApplyUpdate)
+//@   invariant loop 2 [C07]: count(childStatusCheck) == count(ApplyUpdate)
+//@   ensures [C07] err == nil ==> count(childStatusCheck) == count(ApplyUpdate)
+
+//@ pred validClaims(c) = forall k string, n string :: has(c, k) && has(c[k], n) ==> validPR(c[k][n])
+//@ pred validPRs(prs) = len(prs) >= 1 && (forall j int :: 0 <= j && j < len(prs) ==> validPR(prs[j]))
+
+// One gated move per sync: the children are scanned in the order of the latest hook answer; at the first one that is not on the
+// latest revision the gate is evaluated once - on failure the rollout waits (condition Updated=False/RolloutWaiting, nothing
+// moves), on success exactly that child moves (Updated=False/RolloutProgressing) - and the scan ends either way. If every
+// child is on the latest revision the condition is Updated=True/OnLatestRevision.
+//@ func parentController.syncRollingUpdate(pc, parentRevisions, observedChildren) (err)
+//@   requires validPC(pc) && validPRs(parentRevisions)
+//@   requires parentRevisions[0].syncResult != nil
+//@   requires noNilRelChildren(parentRevisions[0].desiredChildMap)
+//@   requires-assumed forall i int :: 0 <= i && i < len(parentRevisions[0].revision.Children) ==> (forall j int :: 0 <= j && j < len(parentRevisions[0].revision.Children[i].Names) ==> parentRevisions[0].desiredChildMap.FindGroupKindName(schema.GroupKind{Group: parentRevisions[0].revision.Children[i].APIGroup, Kind: parentRevisions[0].revision.Children[i].Kind}, parentRevisions[0].revision.Children[i].Names[j]) != nil)
+//@   safety C13,C07
+//@   bind call parentController.shouldContinueRolling: gateErr
+//@   let latest = parentRevisions[0]
+//@   let status = parentRevisions[0].syncResult.Status
+//@   at parentController.shouldContinueRolling(p, l, obs) [C07]: l == latest && obs == observedChildren && count(parentController.shouldContinueRolling) == 1
+//@   at parentRevision.addChild#3(pr, g, k, n) [C07]: called(parentController.shouldContinueRolling) && gateErr == nil && pr == latest
+//@   at parentRevision.removeChild#2(pr, g, k, n) [C07]: called(parentController.shouldContinueRolling) && gateErr == nil
+//@   at SetCondition#1(st, c) [C07]: st == status && st != nil && c != nil && c.Type == "Updated" && c.Status == "False" && c.Reason == "RolloutWaiting" && gateErr != nil
+//@   at SetCondition#2(st, c) [C07]: st == status && st != nil && c != nil && c.Type == "Updated" && c.Status == "False" && c.Reason == "RolloutProgressing" && gateErr == nil
+//@   at SetCondition#3(st, c) [C07,C08]: st == status && st != nil && c != nil && c.Type == "Updated" && c.Status == "True" && c.Reason == "OnLatestRevision" && !called(parentController.shouldContinueRolling)
+//@   invariant loop 3 [C07]: !called(parentController.shouldContinueRolling) && !called(SetCondition) && latest.syncResult != nil && latest.syncResult.Status != nil && validPRs(parentRevisions)
+//@   invariant loop 1 [C07]: latest.syncResult != nil && latest.syncResult.Status != nil && validPRs(parentRevisions) && !called(parentController.shouldContinueRolling) && !called(SetCondition)
+//@   invariant loop 1 [C07]: claimed != nil && validClaims(claimed)
+//@   invariant loop 1 [C07]: noNilRelChildren(latest.desiredChildMap)
+//@   invariant loop 2 [C07]: latest.syncResult != nil && latest.syncResult.Status != nil && validPRs(parentRevisions) && !called(parentController.shouldContinueRolling) && !called(SetCondition)
+//@   invariant loop 2 [C07]: claimed != nil && validClaims(claimed)
+//@   invariant loop 2 [C07]: noNilRelChildren(latest.desiredChildMap)
+//@   invariant loop 4 [C07]: validPRs(parentRevisions) && latest.syncResult != nil && latest.syncResult.Status != nil && called(parentController.shouldContinueRolling) && gateErr == nil && !called(SetCondition)
+//@   ensures [C07] err == nil ==> count(SetCondition) == 1
+//@   ensures [C07] count(parentController.shouldContinueRolling) <= 1
